@@ -525,6 +525,7 @@ func (P) Gen(r *core.Rand, tier string, emit func([]string)) {
 		genHeaders(r.Fork(), 12, emit)
 		genEmptyFrames(r.Fork(), 11, 400, emit)
 		genArith(r.Fork(), emit)
+		genStreams(r.Fork(), 4000, emit)
 		return
 	}
 	genExhaustive(r.Fork(), 0, 13, 1, emit)
@@ -535,4 +536,5 @@ func (P) Gen(r *core.Rand, tier string, emit func([]string)) {
 	genHeaders(r.Fork(), 3, emit)
 	genEmptyFrames(r.Fork(), 10, 60, emit)
 	genArith(r.Fork(), emit)
+	genStreams(r.Fork(), 600, emit)
 }
